@@ -7,7 +7,7 @@
    (Kids order and count, boxes, Rotate, Contents bytes, Resources down to font files and
    image bytes) is part of the unfolding of the page tree root. *)
 From Coq Require Import List ZArith NArith Bool.
-From PV Require Import C20.Model C20.Spec C20.Proofs C20.ProofsEqual C20.ProofsDedup C20.ProofsObs.
+From PV Require Import C20.Model C20.Spec C20.Proofs C20.ProofsEqual C20.ProofsDedup C20.ProofsObs C20.ProofsTerm.
 Import ListNotations.
 Open Scope Z_scope.
 
@@ -21,6 +21,20 @@ Theorem C20_equal_objects_sound : forall g fuel o1 o2,
   EqualObjects fuel g o1 o2 [] = CT -> forall n, sim n g o1 g o2.
 Proof. exact equal_objects_sound. Qed.
 Print Assumptions C20_equal_objects_sound.
+
+(* 1b. Theorem 1 is a partial-correctness statement: it says nothing when the fuel runs out.
+      "Some fuel always suffices" (termination of EqualObjects) is REFUTED: on a cycle that
+      alternates between a direct object and a reference on either side, no pair is ever
+      recorded (pairs are recorded only when both sides are references) and the recursion
+      is unbounded, although the two objects do have the same unfolding.
+      Witness: 1 0 obj [[1 0 R]], 2 0 obj [1 0 R].  Reproduced on the real code by the
+      harness (child process: Go stack overflow, fatal): classes
+      equalobjects-unbounded-recursion-mixed-direct-indirect-cycle and
+      optimize-fatal-stack-overflow-equalobjects-mixed-cycle. *)
+Theorem C20_equal_objects_termination_refuted : exists g o1 o2,
+  wfg g /\ (forall n, sim n g o1 g o2) /\ forall fuel, EqualObjects fuel g o1 o2 [] = CFuel.
+Proof. exact termination_refuted. Qed.
+Print Assumptions C20_equal_objects_termination_refuted.
 
 (* 2. Deduplication preserves every unfolding: if every object of g' is the object of g with
       some references b replaced by references a such that a and b have the same unfolding
